@@ -129,6 +129,8 @@ def getitem(I, base, idx):
         # symbolic key against concrete keys
         keys = list(base.items)
         for k in keys:
+            if k is idx:
+                return base.items[k]
             if kind_of(k) != kind_of(idx) and not (kind_of(idx) == "str" and isinstance(k, str)):
                 continue
             if I.path.branch(zbool(I.eq(idx, k)), f"key=={k!r}@{I.cur_line}"):
@@ -181,8 +183,8 @@ def setitem(I, base, idx, value):
             return
         raise Unsupported("list store with symbolic index")
     if isinstance(base, PDict):
-        if I.is_concrete(idx) or (I.lenient and isinstance(idx, Opaque)):
-            base.items[idx] = value  # opaque keys are kept by identity
+        if I.is_concrete(idx) or (I.lenient and isinstance(idx, Opaque)) or isinstance(idx, tuple):
+            base.items[idx] = value  # opaque / symbolic tuple keys are kept by identity, compared with ==
             return
         from .values import promote_dict
 
